@@ -1979,6 +1979,19 @@ namespace bxdecay0 {
             }
             return;
           }
+          if (std::max((double)bb_params_.ebb1, 0.) >= std::min((double)bb_params_.ebb2, e0 - El)) {
+            // The requested energy range does not intersect the kinematic range [0,e0-El] of the e-/e+:
+            // refuse it here, before a spectrum is tabulated or an event is sampled with it
+            std::cerr << "[error] "
+                      << "bxdecay0::genbbsub: "
+                      << "Empty energy range for the sum of e-/e+ energies : [" << bb_params_.ebb1 << ';'
+                      << bb_params_.ebb2 << "] MeV (available energy: " << e0 - El << " MeV) !\n";
+            ier_ = 1;
+            if (trace) {
+              std::cerr << "[debug] bxdecay0::genbbsub: Exiting." << std::endl;
+            }
+            return;
+          }
           if (trace) {
             std::cerr << "[debug] bxdecay0::genbbsub: (1) Checking the consistency of data: energy is done."
                       << std::endl;
